@@ -30,6 +30,17 @@ func runC12(em *vEmitter, r *vRng) {
 			}
 			pw[u] = fmt.Sprintf("pw-%s-%d", u, r.intn(100))
 			tail := []string{"", "totp: QUJD\n", "u2f: x\ntotp: y", "\x00\xff\n"}[r.intn(4)]
+			if si%5 == 2 && i == 1 {
+				// more auxiliary data than one 4 KiB buffer holds, in distinguishable lines
+				var b strings.Builder
+				for k := 0; b.Len() < 4200+r.intn(5000); k++ {
+					fmt.Fprintf(&b, "key%04d: %s\n", k, strings.Repeat(string(rune('a'+k%26)), 40))
+				}
+				tail = b.String()
+				if r.intn(2) == 0 {
+					tail = tail[:len(tail)-1]
+				}
+			}
 			ms.plant(u, i == 0, pid, 1600000000+int64(i), r.bytes(sl), []byte(pw[u]), tail)
 		}
 		st, err := NewStore(ms.cfgfile, mode, "", "", "")
